@@ -736,8 +736,14 @@ impl World {
     }
 
     fn compile_msg(&self, r: &Req) -> (Request, PathBuf) {
+        self.compile_msg_to(r, "")
+    }
+
+    /// `compile_msg` with the object file named `tu<N><suffix>.o`.  The output path is not part of either hash key
+    /// (`-o` is an output argument, not a common one), so requests that differ only in `suffix` share their keys.
+    fn compile_msg_to(&self, r: &Req, suffix: &str) -> (Request, PathBuf) {
         let t = r.tu;
-        let out_rel = if r.extract_ok { format!("tu{}.o", t) } else { format!("nodir/tu{}.o", t) };
+        let out_rel = if r.extract_ok { format!("tu{}{}.o", t, suffix) } else { format!("nodir/tu{}{}.o", t, suffix) };
         let out = self.cwd.join(&out_rel);
         let _ = std::fs::remove_file(&out);
         let src = format!("tu{}.c", t);
@@ -1245,10 +1251,17 @@ async fn run_case(case: &Sx, rt: tokio::runtime::Handle) -> Result<Sx, String> {
                     }
                 })));
                 let (p0, c0) = w.runs();
+                // Each request has an object file of its own.  What is studied here is two STORES of one key in
+                // flight; two compilers writing one output file at the same time is a different thing, and no storage
+                // fault: a compiler truncates its output before it writes it, so the other request — which reads its
+                // object back after its own compiler has exited — could find the file empty and store that (a direct
+                // compile races in the same way).  With one shared file this made about one run in ten of the
+                // unchanged tree report a hit with an empty object.  (That the two stores still reserve under ONE key
+                // was checked at the `put.reserved` sync point when this was changed: 880 twin steps, no difference.)
                 let (m1, o1) = w.compile_msg(&r);
-                let (m2, _) = w.compile_msg(&r);
-                let f1 = w.rt.spawn(World::run_req(w.service.clone(), m1, o1.clone()));
-                let f2 = w.rt.spawn(World::run_req(w.service.clone(), m2, o1));
+                let (m2, o2) = w.compile_msg_to(&r, ".twin");
+                let f1 = w.rt.spawn(World::run_req(w.service.clone(), m1, o1));
+                let f2 = w.rt.spawn(World::run_req(w.service.clone(), m2, o2));
                 // whichever finishes first is the one whose write failed
                 let (first, other) = match futures::future::select(f1, f2).await {
                     futures::future::Either::Left((a, b)) => (a, b),
